@@ -3042,9 +3042,16 @@ void notify_no_command () {
   p = command_giver->interactive->default_err_message;
   if (command_giver->interactive->iflags & NOTIFY_FAIL_FUNC)
     {
-      save_command_giver (command_giver);
+      object_t *giver = command_giver;
+
+      /* The function may change command_giver. Keep our reference to it on the value
+       * stack, not on the command giver stack: if the function raises an error the stack
+       * is unwound and the reference released, while nothing would ever take an entry off
+       * the command giver stack again. */
+      push_object (giver);
       v = call_function_pointer (p.f, 0);
-      restore_command_giver ();
+      command_giver = giver;
+      pop_stack ();		/* 0 by now if the function destructed it */
       free_funp (p.f);
       if (command_giver && command_giver->interactive)
         {
